@@ -440,7 +440,7 @@ func init() {
 	// backlogs beyond any small bound an implementation might put on waiting deliveries (seeded
 	// change C14-m: after 128 parked deliveries the connection server hands over synchronously and
 	// stops reading the socket - no retransmission after a lost indication, Inbound never closed)
-	for _, n := range []int{129, 300, 1100} {
+	for _, n := range []int{129, 300} {
 		flb := c14Params{L: 2, retain: 3, pause: 5, losts: []int{1, 2}, flood: n}
 		register("both", &h.Scenario{Name: fmt.Sprintf("C14-L2-retain3-after-%d-inbound", n), Prop: "C14", P: 0, F: 0, D: -1, Run: c14Run(flb), Check: c14Oracle(flb)})
 	}
